@@ -112,7 +112,10 @@ def generate(seed, tier="quick"):
             "m": r.choice([2, 3]), "tenor_fracs": sorted(r.sample([0.15, 0.3, 0.45, 0.6, 0.75, 0.9, 1.2, 1.5], 4)),
             "c": r.choice([1.0, 0.5, -2.0]), "x0": r.choice([1.0, 0.03, 100.0]), "h": r.choice([0.1, 0.05, 0.2]),
             "maturity": r.choice([0.25, 1.0]), "engine": r.choice(["standard", "mlmc", "mlmc"]),
-            "max_level": r.choice([1, 2, 3]), "n": r.choice([3, 6, 12]), "seed": r.choice([None, 11])}
+            "max_level": r.choice([1, 2, 3]), "n": r.choice([3, 6, 12]), "seed": r.choice([None, 11]),
+            # the multilevel run through the (simulated) worker pool: every path is simulated by a pickled copy of the level's
+            # process and shipped back
+            "nproc": r.choice([1, 1, 2, 3])}
 
 
 def shrink_candidates(sc):
@@ -157,6 +160,12 @@ def _check_reads(samples, add):
             break
         if not rd["adds_up"]:
             add("C16.euler|drift, diffusion and jump parts of a returned path do not add up to its solution", {"serial": s_["serial"]})
+            break
+        sh = s_.get("shipped") or {}
+        bad = [k_ for k_, ok_ in sh.items() if ok_ is False]
+        if bad or "error" in sh:
+            add(f"C16.euler|the solution of a path shipped through the {bad[0] if bad else 'pickler'} (what a worker pool / the engines' copies do) is not the solution that was simulated",
+                {"serial": s_["serial"], "shipped": sh})
             break
 
 
@@ -251,8 +260,11 @@ def execute(wd, sc):
         else:
             cp = CouplingSDE(model=model, grid=grid, method=method)
             eps0 = cp.epsilon
+            nproc = sc.get("nproc", 1)
+            if nproc != 1:
+                wd.probes["c16.multilevel_run_through_the_pool"] += 1
             ML(ConfigurationMultiLevel(initial_level=0, maximum_level=sc["max_level"], initial_mc_paths=sc["n"],
-                                       nb_of_processes=1, seed=sc["seed"]), cp).price_with_constant_mc_paths_and_level(product)
+                                       nb_of_processes=nproc, seed=sc["seed"]), cp).price_with_constant_mc_paths_and_level(product)
     except HarnessError:
         raise
     except Exception as e:
